@@ -253,8 +253,10 @@ def run(ctx):
             any(c.startswith("!") and c.endswith(".frame_finished") for c in dom.conds(ix, cps[0], ("else",)))
         ctx.check(ok, RS, "Read::read", b["file"], "read drains everything once the last block was decoded, else retains the window")
         cb = ctx.hir(DB + "::can_drain_to_window_size")
-        s = hq.Canon(cb)(hq.tail_expr(cb["body"]))
-        want_s = "if (self.window_size < ruzstd::decoding::ringbuffer::RingBuffer::len(self.buffer)) { core::option::Option::Some((ruzstd::decoding::ringbuffer::RingBuffer::len(self.buffer) - self.window_size)) } else { core::option::Option::None }"
+        LEN = "ruzstd::decoding::ringbuffer::RingBuffer::len(self.buffer)"
+        s = sorted((c, v) for c, v, _ in hq.Index(cb).result_cases())
+        want_s = sorted([(["(self.window_size < %s)" % LEN], "core::option::Option::Some((%s - self.window_size))" % LEN),
+                         (["(%s <= self.window_size)" % LEN], "core::option::Option::None")])
         ctx.check(s == want_s, RS, "can_drain_to_window_size", cb["file"], "offers len - window_size only when len > window_size",
                   observed=s, expected=want_s)
         # the window-retaining paths drain at most that amount
